@@ -420,3 +420,20 @@ def blocksplit_obligations():
     first because block_split calls get_region and grid_coordinates (their theorems are reported by C07 / C13)"""
     tag, mod_, funcs, tmpl, imports = BLOCKSPLIT_SPEC
     return tie(tag, mod_, funcs, tmpl, BLOCKSPLIT_THEOREMS, imports, skip=BLOCKSPLIT_SKIP)
+
+
+PROFILE_FUNCS = ["profile_coordinates"]
+PROFILE_THEOREMS = ["src_profile_coordinates_eq", "profile_code_model"]
+PROFILE_IMPORTS = "From Coq Require Import Field.\nFrom Verde Require Import Proofs.PyLiteBridge."
+PROFILE_SPEC = ("ProfileSrc", os.path.join("verde", "coordinates.py"), PROFILE_FUNCS, "pylite_profile.v.tmpl", PROFILE_IMPORTS)
+
+
+def profile_obligations():
+    """verde/coordinates.py profile_coordinates against Model/Coordinates.v profile_points / profile_dist2 (C07)"""
+    tag, mod_, funcs, tmpl, imports = PROFILE_SPEC
+    return tie(tag, mod_, funcs, tmpl, PROFILE_THEOREMS, imports)
+
+
+def c07_obligations():
+    """the coordinate functions of C07 plus profile_coordinates"""
+    return coord_obligations() + profile_obligations()
